@@ -509,7 +509,22 @@ BatchAgreed(hs, e) ==
     /\ Predicted(BatchHistA(hs), hs.pend2.p.pre, BatchEvent(hs, e))
           = Predicted(BatchHist(hs), BatchPreB(hs), BatchEvent(hs, e))
 
+\* read records applied by the maintenance that ran inside this call
+ReadsApplied(e) == IF HasF(e, "mx") THEN Len(SelectSeq(e.mx, LAMBDA m : m.t \in {"read.hit", "read.miss"})) ELSE 0
+
+\* Every recorded lookup counts, whatever the state of the entry it found (admitted or still
+\* waiting in the write queue, gone since, never there): with pairwise disjoint counters, the
+\* estimator on before the call, no aging step and no estimate at its ceiling, the estimates grow
+\* by exactly the number of read records that the call's maintenance applied.  (C14: "at least c";
+\* C13's "a key looked up more often than the residents it would replace gets in" rests on it.)
+ReadsCounted(hs, pre, e) ==
+    (IsOp(e) /\ IsSync(hs) /\ pre.fq # <<>> /\ HasF(e.snap, "fq") /\ e.snap.fq # <<>> /\ HasF(e, "mx")
+     /\ ReadsApplied(e) > 0 /\ pre.sk.on /\ ~e.snap.sk.aged /\ hs.cfg.hasher = "id"
+     /\ \A j \in DOMAIN e.snap.fq : e.snap.fq[j] < 15)
+    => SeqSum(e.snap.fq) = SeqSum(pre.fq) + ReadsApplied(e)
+
 Allowed_C13(hs, pre, e) ==
+    /\ ReadsCounted(hs, pre, e)
     /\ (e.ev = "Insert" /\ ~IsSync(hs) /\ IsContest(hs, pre, e)) =>
           ((e.k \in KeysIn(e.snap.res)) <=> Predicted(hs, pre, e))
     /\ (PairReady(hs, e) /\ IsContest(PairHist(hs), hs.pend.pre, PairEvent(hs, e))) =>
@@ -517,6 +532,7 @@ Allowed_C13(hs, pre, e) ==
     /\ BatchAgreed(hs, e) =>
           ((hs.pend2.p.k \in KeysIn(e.snap.res)) <=> Predicted(BatchHistA(hs), hs.pend2.p.pre, BatchEvent(hs, e)))
 NT_C13(hs, pre, e) ==
+    \/ (IsOp(e) /\ IsSync(hs) /\ ReadsApplied(e) > 0 /\ pre.sk.on)
     \/ e.ev = "Insert" /\ ~IsSync(hs) /\ IsContest(hs, pre, e)
     \/ PairReady(hs, e) /\ IsContest(PairHist(hs), hs.pend.pre, PairEvent(hs, e))
     \/ BatchAgreed(hs, e)
@@ -527,10 +543,8 @@ NT_C13(hs, pre, e) ==
 HalfLo(x) == x \div 2
 HalfHi(x) == (x + 1) \div 2
 
-\* read records applied by the maintenance that ran inside this call
-ReadsApplied(e) == IF HasF(e, "mx") THEN Len(SelectSeq(e.mx, LAMBDA m : m.t \in {"read.hit", "read.miss"})) ELSE 0
-
 Allowed_C14(hs, pre, e) ==
+    /\ ReadsCounted(hs, pre, e)
     /\ (IsOp(e) /\ IsSync(hs) /\ pre.fq # <<>> /\ HasF(e.snap, "fq") /\ e.snap.fq # <<>> /\ HasF(e, "mx")) =>
           LET n == ReadsApplied(e) IN
           /\ hs.napplied + n <= hs.nget                       \* only get calls are ever recorded, once
